@@ -62,6 +62,7 @@ pub fn e1_jobs(prop: &str, tier: Tier) -> (Vec<E1Job>, usize) {
     let pa15 = |d| E1Job { profile: Profile::A { times: vec![1, 5] }, depth: d, alt_map: false };
     let pb = |d| E1Job { profile: Profile::B { access: b_acc.clone(), times: vec![3, 5], unnamed: true, dup: true, pairs: true }, depth: d, alt_map: false };
     let pbs = |d| E1Job { profile: Profile::B { access: b_small.clone(), times: vec![3], unnamed: false, dup: true, pairs: true }, depth: d, alt_map: false };
+    let pbj = |d| E1Job { profile: Profile::B { access: b_small.clone(), times: vec![1, 5], unnamed: false, dup: false, pairs: true }, depth: d, alt_map: false };
     let pc = |d| E1Job { profile: Profile::C { times: vec![1, 5] }, depth: d, alt_map: false };
     let pc3 = |d| E1Job { profile: Profile::C3 { times: vec![1, 5] }, depth: d, alt_map: false };
     let paj = |d| E1Job { profile: Profile::AJ { ballast: 3, times: vec![1] }, depth: d, alt_map: false };
@@ -76,15 +77,15 @@ pub fn e1_jobs(prop: &str, tier: Tier) -> (Vec<E1Job>, usize) {
     let fam = if q { 64 } else { 400 };
     let jobs = match prop {
         "C01" | "C05" => if q { vec![pa(3), E1Job { profile: Profile::A { times: vec![1, 3, 5] }, depth: 3, alt_map: true }, pbs(4), pc(6), pd(4), pdj(5), pe(1, true, 2), paj(4), pa15(4), E1Job { profile: Profile::S, depth: 2, alt_map: false }] } else { vec![pa15(4), pb(4), pc(8), pc3(9), paj(5), paj5(4), pd(5), pe(2, true, 2), pe(1, false, 3), pa(4), E1Job { profile: Profile::S, depth: 3, alt_map: false }] },
-        "C02" => if q { vec![pb(3), pbs(4), pd(5), pdj(4)] } else { vec![pb(4), pbs(5), pd(6), pdj(5)] },
+        "C02" => if q { vec![pb(3), pbs(4), pbj(4), pd(5), pdj(4)] } else { vec![pb(4), pbs(5), pbj(5), pd(6), pdj(5)] },
         "C03" => if q { vec![pd(5), pdj(5), pf(4), pe(1, true, 2)] } else { vec![pd(6), pdj(6), pf(5), pe(2, true, 2)] },
         "C04" => if q { vec![pa1(3), pbs(3), pc(6), paj(4), pd(4), pe(1, true, 2), pf(4), E1Job { profile: Profile::S, depth: 2, alt_map: false }, pc3(8)] } else { vec![pa(3), pbs(4), pc(8), pd(5), pe(2, true, 2), pf(5)] },
         "C07" => if q { vec![pe(1, true, 2), pe(2, true, 1), pe(1, false, 3)] } else { vec![pe(2, true, 2), pe(1, true, 3)] },
-        "C10" => if q { vec![pa(3), pb(3), pbs(4), pc(6), pd(6), pdj(5), paj(4), pa15(4)] } else { vec![pa(3), pa1(4), pb(4), pbs(5), pc(8), pd(7)] },
+        "C10" => if q { vec![pa(3), pb(3), pbs(4), pbj(4), pc(6), pd(6), pdj(5), paj(4), pa15(4)] } else { vec![pa(3), pa1(4), pb(4), pbs(5), pc(8), pd(7)] },
         "C12" => if q { vec![pf(4)] } else { vec![pf(6)] },
         "C13" => if q { vec![pf(5), pe(1, true, 2), pe(2, true, 1), paj(3), E1Job { profile: Profile::S, depth: 3, alt_map: false }] } else { vec![pf(5), pe(2, true, 2), E1Job { profile: Profile::S, depth: 3, alt_map: false }] },
         "C04x" => vec![],
-        "C18" => if q { vec![pill(4), pc(7), pbs(3), pn(3), paj(4), pc3(9)] } else { vec![pill(5), pc(8), pc3(10), paj(5), pb(4), pn(4), pe(1, true, 2)] },
+        "C18" => if q { vec![pill(4), pc(7), pbs(3), pbj(4), pn(3), paj(4), pc3(9)] } else { vec![pill(5), pc(8), pc3(10), paj(5), pb(4), pbj(5), pn(4), pe(1, true, 2)] },
         "C19" => if q { vec![pa15(3), pb(3), pd(5), pe(1, true, 2), pc(5), paj(4)] } else { vec![pa(3), pb(3), pbs(4), pd(5), pe(1, true, 2), pc(6), pf(4), paj(5), paj5(4)] },
         "C20" => if q { vec![pn(5), pill(4), pb(3), pc(7), pd(5), pe(1, true, 2), paj(4), pa15(3)] } else { vec![pn(5), pb(4), pc(8), pd(6), pe(1, true, 2)] },
         _ => vec![],
@@ -139,6 +140,26 @@ pub fn run_e1(prop: &str, tier: Tier, budget: Duration, frag: &mut Frag) {
     let props = Props::from_list(&[if prop == "C05" { "C01" } else { prop }]);
     let need = need_for(prop);
     run_regressions(prop, frag);
+    // cheapest first: a job's share of the budget is what is left divided by the jobs still to run, so time
+    // the small jobs do not use is passed on to the large ones
+    let mut jobs = jobs;
+    jobs.sort_by(|a, b| {
+        // branching measured along the path of last children (canonicalising profiles open up with depth)
+        let est = |j: &E1Job| {
+            let mut prefix: Vec<Op> = Vec::new();
+            let mut e = 1f64;
+            for _ in 0..j.depth {
+                let ch = j.profile.children(&prefix);
+                e *= ch.len().max(1) as f64;
+                match ch.into_iter().last() {
+                    Some((op, false)) => prefix.push(op),
+                    _ => break,
+                }
+            }
+            e
+        };
+        est(a).partial_cmp(&est(b)).unwrap_or(std::cmp::Ordering::Equal)
+    });
     let start = Instant::now();
     let njobs = jobs.len() + if fam_n > 0 { 1 } else { 0 };
     for (k, job) in jobs.iter().enumerate() {
@@ -168,6 +189,19 @@ pub fn run_e1(prop: &str, tier: Tier, budget: Duration, frag: &mut Frag) {
             "engine": "E1 planmc", "profile": format!("relabelling sweep: every sequence of <= {} systems over {{read, write}} x {{P, Q}} x running time {{1, 5}} that names both resources, rebuilt with (P, Q) mapped onto every ordered pair of distinct ids of a {}-id universe (two types x dynamic ids 100..)", len, nids),
             "base_plans": r.stats.states, "relabelled_builds": r.stats.barrier_metamorphic, "transitions": r.stats.transitions, "cap_hit": r.stats.capped, "wall_s": t0.elapsed().as_secs_f64(),
             "argument": format!("pigeonhole: any classification of resource ids into fewer than {} classes merges two ids of the universe, and every ordered pair is visited", nids),
+        }));
+        frag.states += r.stats.states + r.stats.barrier_metamorphic;
+        frag.transitions += r.stats.transitions;
+        frag.traces_validated += r.stats.barrier_metamorphic;
+        frag.exhaustive &= !r.stats.capped;
+        frag.col.merge(r.col);
+        // the parametric families (stages of up to n groups, chains, groups filled to capacity) under every transformation
+        let nmax = if tier == Tier::Quick { 24 } else { 64 };
+        let t0 = Instant::now();
+        let r = crate::planmc::c19_families(nmax, 6, t0 + Duration::from_secs(if tier == Tier::Quick { 20 } else { 300 }), threads());
+        frag.parts.push(json!({
+            "engine": "E1 planmc", "profile": format!("G(parametric families, every n in 1..{}) under every C19 transformation (names, list order, 6 relabellings, rayon thread counts 1/2/3/64, second build)", nmax),
+            "base_plans": r.stats.states, "transformed_builds": r.stats.barrier_metamorphic, "transitions": r.stats.transitions, "max_depth": r.stats.max_depth, "cap_hit": r.stats.capped, "wall_s": t0.elapsed().as_secs_f64(),
         }));
         frag.states += r.stats.states + r.stats.barrier_metamorphic;
         frag.transitions += r.stats.transitions;
@@ -753,6 +787,44 @@ fn c11_scenarios(w: usize, n: usize) -> Vec<(String, Scenario)> {
         s.rendezvous = Some((ids.clone(), w as u16));
         v.push((format!("dispatch from a worker of a foreign 1-thread pool / width {} / own pool of {} threads", w, n), s));
     }
+    // a narrow batch registered (and therefore built) first, then the wide stage: behind a barrier, beside the
+    // batch, and as the inner stage of a second batch; the pool (default or user-supplied) is shared by all
+    {
+        let bs = |name: &str, inner: Vec<Op>| Op::Batch(crate::spec::BatchSpec { name: name.into(), deps: vec![], ctrl: crate::spec::CtrlData::Unit, times: 1, multi: false, fetch_data: false, inner });
+        let one = || vec![Op::Sys(crate::spec::SysSpec { name: "n0".into(), reads: vec![], writes: vec![], time: 3, deps: vec![] })];
+        for user in [false, true] {
+            for variant in 0..3 {
+                let mut ops = vec![bs("narrow", one())];
+                // ids: batch 0, its inner system 1
+                let rv: Vec<usize> = match variant {
+                    0 => {
+                        ops.push(Op::Barrier);
+                        ops.extend(wide_stage(w));
+                        (2..2 + w).collect()
+                    }
+                    1 => {
+                        ops.extend(wide_stage(w));
+                        (2..2 + w).collect()
+                    }
+                    _ => {
+                        ops.push(Op::Barrier);
+                        ops.push(bs("wide", wide_stage(w)));
+                        (3..3 + w).collect()
+                    }
+                };
+                // beside the batch the stage has w + 1 groups: one more thread keeps the rendezvous within the property's domain
+                let threads = if variant == 1 && n >= w { n + 1 } else { n };
+                let mut s = Scenario::plain(ops, Mode::Dispatch, 1);
+                if user {
+                    s.user_pool = Some(threads);
+                } else {
+                    s.default_threads = Some(threads);
+                }
+                s.rendezvous = Some((rv, w as u16));
+                v.push((format!("narrow batch first, then width {} (variant {}) / {} threads", w, variant, threads), s));
+            }
+        }
+    }
     // batch-inner stage
     let inner = wide_stage(w);
     let batch = vec![Op::Batch(crate::spec::BatchSpec { name: "b".into(), deps: vec![], ctrl: crate::spec::CtrlData::Unit, times: 1, multi: false, fetch_data: false, inner })];
@@ -1032,9 +1104,13 @@ pub fn run_c16(tier: Tier, budget: Duration, frag: &mut Frag) {
         let ts = trees(leaves, depth, fan, if small { &alpha3 } else { &alpha }, true);
         let mut items = Vec::new();
         for t in &ts {
-            items.push((t.clone(), false, 1u8));
+            items.push((t.clone(), 0u8, 1u8));
             if both {
-                items.push((t.clone(), true, if t.leaves() <= 2 { 2 } else { 1 }));
+                items.push((t.clone(), 1, if t.leaves() <= 2 { 2 } else { 1 }));
+                if t.leaves() <= 3 {
+                    // dispatch called on the only worker of a foreign pool
+                    items.push((t.clone(), 2, 1));
+                }
             }
         }
         let remaining = budget.saturating_sub(start.elapsed());
@@ -1043,7 +1119,7 @@ pub fn run_c16(tier: Tier, budget: Duration, frag: &mut Frag) {
         let (st, col, samples, kept) = explore_trees(items, bounds.clone(), t0 + share, threads());
         frag.parts.push(json!({
             "engine": "E2 schedmc",
-            "scenarios": format!("every par/seq tree with <= {} leaves, depth <= {}, fan-out <= {}, par-compatible leaf access over a {}-element alphabet; dispatched from outside{} the pool", leaves, depth, fan, if small { 3 } else { 5 }, if both { " and inside" } else { "" }),
+            "scenarios": format!("every par/seq tree with <= {} leaves, depth <= {}, fan-out <= {}, par-compatible leaf access over a {}-element alphabet; dispatched from outside{} the pool", leaves, depth, fan, if small { 3 } else { 5 }, if both { ", inside, and (<= 3 leaves) from a worker of a foreign one-thread pool, not" } else { "" }),
             "n_scenarios": st.trees, "scenarios_completed": st.completed, "preemption_bounds": bounds, "min_bound_completed": st.min_bound,
             "schedules": st.executions, "states": st.nodes, "transitions": st.transitions, "distinct_event_traces": st.traces,
             "trees_with_a_par_node_of_2+_children": st.par_trees, "of_which_showed_overlapping_children": st.overlapping_par_trees,
